@@ -11,7 +11,37 @@ def prefix_lengths(n):
     ks = list(range(256)) + list(range(n - 16, n))
     step = max(1, (n - 272) // 64)
     ks += list(range(256, n - 16, step))[:64]
-    return sorted(set(ks))
+    # cuts around 16K fragment boundaries (PER length fragmentation) and 64K
+    for base in range(16384, n + 16384, 16384):
+        for d in range(-2, 8):
+            ks.append(base + d)
+    return sorted(set(k for k in ks if 0 <= k < n))
+
+
+def directed_big(codec):
+    """Types whose values need length fragmentation / long lengths, built by construction."""
+    from ..asn import Ty, Member, Module, Spec, Rng
+    m = Module('M', 'AUTOMATIC')
+    m.types = [
+        ('O', Ty('OCTET STRING')),
+        ('B', Ty('BIT STRING')),
+        ('I', Ty('IA5String')),
+        ('L', Ty('SEQUENCE OF', elem=Ty('BOOLEAN'))),
+        ('S', Ty('SEQUENCE', root=[Member('a', Ty('OCTET STRING')), Member('b', Ty('BOOLEAN'))])),
+        ('U', Ty('UTF8String')),
+    ]
+    spec = Spec([m])
+    items = []
+    for n in (16383, 16384, 16385, 32768, 49153, 65536, 70000):
+        items.append(('O', [b'\x5a' * n]))
+        items.append(('S', [{'a': b'\xa5' * n, 'b': True}]))
+    for n in (16384, 16385, 65537):
+        items.append(('B', [(b'\xff' * ((n + 7) // 8), n)]))
+        items.append(('I', ['x' * n]))
+        items.append(('U', ['y' * n]))
+    for n in (16384, 16390, 32768):
+        items.append(('L', [[True, False] * (n // 2)]))
+    return [(spec, [('M', name, vals)]) for name, vals in items]
 
 
 class C16(SpecValueCheck):
@@ -25,6 +55,9 @@ class C16(SpecValueCheck):
             'distinct = hash(module text, type, codec, encoding, k)')
     assumptions = ['the encoders emit no byte their decoder does not need (empty encodings have no strict prefix)',
                    'values the library rejects or declares unsupported are skipped and counted']
+
+    def directed(self, tier, shard):
+        return directed_big(shard['codec'])
 
     def oracle(self, x):
         e = x.encode()
